@@ -677,6 +677,43 @@ class Norm:
                 body = rewrite(x, sub)
                 r = ("call", "Iterator::collect", [("call", "Iterator::map", [it, ("closure", d, 1, body)])])
                 return ("try", r) if hoist else r
+        # (s) result of a search loop:  let mut f = false; for x in it { if c { f = true; break } }    ==   it.any(|x| c)
+        #                            let mut f = None;  for x in it { if c { f = Some(v); break } }  ==   it.find(|x| c).map(|x| v)
+        if len(effs) == 1 and kinds[0] == "assign" and len(rel[0]) >= 2 and rel[0][0][0] == "for" and all(g[0] in ("if", "arm") for g in rel[0][1:]) \
+                and self._lhs_path(effs[0][0]["l"]) == "" and origin[0] == "let" and not _has_other_exit(rel[0][0][2]):
+            it = self._t(rel[0][0][1])
+            val = self._t(effs[0][0]["r"])
+            conds = []
+            for g in rel[0][1:]:
+                if g[0] == "if":
+                    c = self._t(g[1])
+                    conds.append(c if g[2] else _not(c))
+                else:
+                    conds.append(_let(g[2], self._t(g[1])))
+            c = conds[0]
+            for x in conds[1:]:
+                c = ("op", "&&", [c, x])
+            d = depth + 1
+            el = ("elem", it)
+
+            def to_clo(t):
+                def sub(n):
+                    if n == el:
+                        return ("cparam", d, 0)
+                    if n[0] == "cparam" and n[1] >= d:
+                        return ("cparam", n[1] + 1, n[2])
+                    if n[0] == "closure" and n[1] >= d:
+                        return ("closure", n[1] + 1, n[2], n[3])
+                    return None
+                return ("closure", d, 1, rewrite(t, sub))
+            has_break = _breaks_after(rel[0][0][2], effs[0][0])
+            if init == ("lit", False) and val == ("lit", True):
+                return ("call", "Iterator::any", [it, to_clo(c)])
+            if init == ("def", "v1::None") and val[0] == "call" and val[1] == "Some" and len(val[2]) == 1 and has_break:
+                found = ("call", "Iterator::find", [it, to_clo(c)])
+                if val[2][0] == el:
+                    return found
+                return ("call", "Option::map", [found, to_clo(val[2][0])])
         # (c) one conditional reassignment (under any chain of `if` / match-arm guards)
         if len(effs) == 1 and kinds[0] == "assign" and len(rel[0]) >= 1 and all(g[0] in ("if", "arm") for g in rel[0]) \
                 and self._lhs_path(effs[0][0]["l"]) == "" and origin[0] == "let":
@@ -900,7 +937,9 @@ class Norm:
             return False
         if "expr" in b:
             items.append(b["expr"])
-        return bool(items) and all(self._is_mut_local_effect(x) for x in items)
+        # a trailing `break` after the effects ends a search loop; it is part of the canonical form of the searched-for local
+        core = [x for x in items if not (strip(x).get("k") == "Break" and "label" not in strip(x) and "e" not in strip(x))]
+        return bool(core) and all(self._is_mut_local_effect(x) for x in core)
 
     def param_id(self, i):
         p = self.body["params"][i]
@@ -1614,17 +1653,16 @@ def _found_flag_loops(effs):
         a = effs[i]
         b = effs[i + 1] if i + 1 < len(effs) else None
         done = False
-        if b is not None and a[0] == "for" and a[2][0] == "if" and _is_unit(a[2][3]) and b[0] == "if" and _is_unit(b[2]) and b[1][0] == "mut":
-            # (`if !found { B }` is kept as `if found {} else { B }`)
+        if b is not None and a[0] == "for" and a[2][0] == "if" and _is_unit(a[2][3]) and b[0] == "if" and _is_unit(b[2]) \
+                and b[1][0] == "call" and b[1][1] == "Iterator::any" and len(b[1][2]) == 2 and b[1][2][1][0] == "closure":
+            # (`if !found { B }` is kept as `if found {} else { B }`; the flag itself reads `it.any(|x| c)`)
             it, c, hit = a[1], a[2][1], a[2][2]
-            m = b[1]
             acts = None
             if hit[0] == "seq" and hit[2][0] == "break":
                 acts = hit[1]
             elif hit[0] == "break":
                 acts = []
-            if acts is not None and m[2] == ("lit", False) and len(m[3]) == 1 and m[3][0][0] == "assign" and m[3][0][1] == "" and m[3][0][2] == ("lit", True) \
-                    and tuple(m[3][0][3][-2:]) == ("for(" + _show(it) + ")", _show(c)):
+            if acts is not None and b[1][2][0] == it and _apply(b[1][2][1], ("elem", it)) == c:
                 A = ("lit", "()") if not acts else acts[0] if len(acts) == 1 else ("seq", acts[:-1], acts[-1])
                 out.append(("call", "search", [it, c, A, b[3]]))
                 i += 2
@@ -1724,6 +1762,42 @@ def _continue_guard(st):
     elif sk == "SLet" and "els" in st and _only_continue(st["els"]):
         return ("arm", st["init"], pat_repr(st["pat"]))
     return None
+
+
+def _has_other_exit(body):
+    """return / continue / labelled break inside a loop body (a plain `break` is allowed: it ends a search)"""
+    stack = [body]
+    while stack:
+        n = stack.pop()
+        if not isinstance(n, dict):
+            continue
+        k = n.get("k")
+        if k in ("Continue", "Ret") or (k == "Break" and ("label" in n or "e" in n)):
+            return True
+        if k == "Closure":
+            continue
+        if k == "Match" and str(n.get("src", "")).startswith("TryDesugar"):
+            return True
+        if k == "Match" and as_for_loop(n) is not None:
+            fl = as_for_loop(n)
+            stack.append(fl[1])
+            stack.append(fl[2])
+            continue
+        stack.extend(children(n))
+    return False
+
+
+def _breaks_after(body, assign_node):
+    """the block that contains the assignment ends with `break` right after it (first match wins)"""
+    for n in walk(body, False):
+        if n.get("k") is None and "stmts" in n:
+            items = [st["e"] for st in n["stmts"] if st.get("k") in ("SSemi", "SExpr")]
+            if "expr" in n:
+                items.append(n["expr"])
+            for i, x in enumerate(items):
+                if strip(x) is assign_node or x is assign_node:
+                    return i + 1 < len(items) and strip(items[i + 1]).get("k") == "Break"
+    return False
 
 
 def _has_loop_exit(body):
